@@ -1129,6 +1129,9 @@ struct Sim<'a> {
     // the lagging-acknowledgements scenario
     rng2: Rng,
     held: Vec<(u64, u64, Option<MessageType>)>,
+    /// a node that became leader in the last call: the application may call anything right then (before the new
+    /// leader's first entry is acknowledged or even persisted)
+    fresh_leader: Option<usize>,
 }
 
 fn role_name(s: StateRole) -> &'static str {
@@ -1203,6 +1206,9 @@ impl<'a> Sim<'a> {
         let r = &st.rn.raft;
         if r.state != pre_role {
             Coverage::bump(&mut self.cov.events, format!("role {}->{}", role_name(pre_role), role_name(r.state)));
+            if r.state == StateRole::Leader {
+                self.fresh_leader = Some(i);
+            }
         }
         if !matches!(op, Op::Drain) {
             for m in r.msgs.iter().skip(pre_msgs) {
@@ -1863,7 +1869,58 @@ impl<'a> Sim<'a> {
         self.net.extend(kept);
     }
 
+    /// API calls on a node that has just become leader, before anything else happens to it
+    fn fresh_leader_calls(&mut self, i: usize) {
+        let n = self.nodes.len() as u64;
+        let k = 1 + self.rng2.below(3);
+        for _ in 0..k {
+            if self.nodes[i].st.is_none() {
+                return;
+            }
+            let groups = |rng: &mut Rng| {
+                let mut v = vec![];
+                for id in 1..=n {
+                    if rng.chance(75) {
+                        v.push((id, 1 + rng.below(2)));
+                    }
+                }
+                v
+            };
+            let op = match self.rng2.below(12) {
+                0 | 1 => {
+                    if !self.call(i, Op::GroupCommit(true)) {
+                        return;
+                    }
+                    Op::AssignGroups(groups(&mut self.rng2))
+                }
+                2 => Op::AssignGroups(groups(&mut self.rng2)),
+                3 => {
+                    let c = format!("r{}", self.next_payload).into_bytes();
+                    self.next_payload += 1;
+                    Op::ReadIndex(c)
+                }
+                4 => Op::TransferLeader(1 + self.rng2.below(n)),
+                5 => Op::Propose(vec![], vec![b'f', b'l']),
+                6 => Op::Ping,
+                7 => Op::SetApplyLimit(if self.rng2.chance(50) { u64::MAX } else { 1 + self.rng2.below(3) }),
+                8 => Op::ReportUnreachable(1 + self.rng2.below(n)),
+                9 => Op::ReportSnapshot(1 + self.rng2.below(n), self.rng2.chance(40)),
+                10 => Op::CheckGroupConsistent,
+                _ => Op::RequestSnapshot,
+            };
+            if !self.call(i, op) {
+                return;
+            }
+        }
+        Coverage::bump(&mut self.cov.events, "fresh_leader_calls".into());
+    }
+
     fn extra_faults(&mut self) {
+        if let Some(i) = self.fresh_leader.take() {
+            if self.rng2.chance(40) {
+                self.fresh_leader_calls(i);
+            }
+        }
         if self.net.len() > 3000 {
             self.net.drain(..1000);
         }
@@ -2221,7 +2278,7 @@ fn cluster(seed: u64, malformed: bool, cov: &mut Coverage) -> Sim<'_> {
         let store = build_storage(&hs, &cs, snap, mine);
         nodes.push(SimNode { id, st: None, cfg, store, snap, lines: Arc::new(Mutex::new(vec![])), unreported: None, restarts: 0 });
     }
-    Sim { nodes, net: vec![], rng, cov, isolated: vec![false; total as usize], next_payload: 1, malformed, et, calls: 0, old_reads: vec![], read_dups_left: 150, rng2: Rng::new(seed ^ 0x5EED_FA17), held: vec![] }
+    Sim { nodes, net: vec![], rng, cov, isolated: vec![false; total as usize], next_payload: 1, malformed, et, calls: 0, old_reads: vec![], read_dups_left: 150, rng2: Rng::new(seed ^ 0x5EED_FA17), held: vec![], fresh_leader: None }
 }
 
 /// `rn new` lines with damaged configurations / storages: `Config::validate`, the restore of the
